@@ -195,7 +195,7 @@ func VerifC05SetStep() {
 		return // the two records are not the same state (cannot happen for records satisfying the invariant)
 	}
 	op := vnd.Pick(9)
-	arg := vnd.Str(vnd.Len(vnd.Param("C05.KStep", 1, 1)))
+	arg := vnd.Str(vnd.Len(vnd.Param("C05.KStep", 1, 2)))
 	applySetter(pre, opSetterNames[op], arg)
 	applyModelSetter(mu, op, arg)
 	if verifCheckSnap(snapImpl(pre, nil), snapModel(mu, true)) == "" {
